@@ -1,6 +1,7 @@
 package scandfa
 
 import (
+	"os"
 	"fmt"
 	"go/ast"
 	"go/constant"
@@ -68,7 +69,11 @@ func (a *Analysis) CommentKind() *report.RuleResult {
 			gen(prefix+string([]byte{c}), n-1)
 		}
 	}
-	gen("", 3)
+	depth := 3
+	if os.Getenv("VERIF_TIER") == "thorough" {
+		depth = 5 // 3906 bodies instead of 156
+	}
+	gen("", depth)
 	var texts []string
 	for _, b := range bodies {
 		t := "/*" + b + "*/"
@@ -196,7 +201,7 @@ func (a *Analysis) CommentKind() *report.RuleResult {
 			case len(bad) > 0:
 				res.Bad(key, pos, l, "a block comment is a doc comment exactly when it starts with `/**` and is longer than `/**/`; "+strings.Join(bad, "; "))
 			default:
-				res.OK(key, pos, l, fmt.Sprintf("records the kind the rule prescribes on all %d block comments with bodies of up to 3 bytes", n))
+				res.OK(key, pos, l, fmt.Sprintf("records the kind the rule prescribes on all %d block comments with bodies of up to %d bytes", n, depth))
 			}
 		}
 	}
